@@ -22,7 +22,7 @@ theorem meshLine_ok (m : Mesh) (p1 p2 : List Rat) (n : Nat) (pts : List (List Ra
       exact ⟨hc.1, hc.2, by omega, h.symm⟩
 
 theorem line_ok (f : VF V) (p1 p2 : List Rat) (n : Nat) (o : LineOut V) (h : f.line p1 p2 n = .ok o) :
-    f.mesh.ndim ≠ 1 ∧ meshLine f.mesh p1 p2 n = .ok o.points ∧
+    meshLine f.mesh p1 p2 n = .ok o.points ∧
     o.points.map f.call = o.values.map .ok ∧
     o.r2 = o.points.map fun p => sqDist p (o.points.getD 0 []) := by
   unfold VF.line at h
@@ -32,11 +32,8 @@ theorem line_ok (f : VF V) (p1 p2 : List Rat) (n : Nat) (o : LineOut V) (h : f.l
     split at h
     · cases h
     · rename_i vals hvals
-      split at h
-      · cases h
-      · rename_i h1
-        injection h with h; subst h
-        exact ⟨h1, hpts, seqM_ok _ _ hvals, rfl⟩
+      injection h with h; subst h
+      exact ⟨hpts, seqM_ok _ _ hvals, rfl⟩
 
 theorem containsPt_length (r : Region) (p : List Rat) (h : r.containsPt p = true) : p.length = r.ndim := by
   unfold Region.containsPt at h
